@@ -34,10 +34,12 @@ func (fr *Frame) execCall(b *ssa.BasicBlock, st *State, ins ssa.CallInstruction)
 	var args []Val
 	for _, a := range cc.Args {
 		args = append(args, fr.val(a))
-		fc.escapeVal(fr.val(a))
 	}
 	if cc.IsInvoke() {
 		fc.escapeVal(fr.val(cc.Value))
+		for _, a := range args {
+			fc.escapeVal(a)
+		}
 	}
 	if cc.IsInvoke() {
 		fr.execInvoke(b, st, ins, cc, args, resT)
@@ -54,6 +56,9 @@ func (fr *Frame) execCall(b *ssa.BasicBlock, st *State, ins ssa.CallInstruction)
 		if fn, ok := callee.Fn.(*ssa.Function); ok {
 			_ = fn
 		}
+	}
+	for _, a := range args {
+		fc.escapeVal(a)
 	}
 	// dynamic call through a function value
 	fc.assumptions["dynamic call through function value in "+fr.fn.Name()+": treated as havoc of the whole heap"] = true
@@ -93,6 +98,12 @@ func (fr *Frame) callFunction(b *ssa.BasicBlock, st *State, callee *ssa.Function
 	// 1. native models
 	if v, ok := fr.nativeCall(b, st, name, callee, args, resT, pos); ok {
 		return v
+	}
+	// natively modelled callees (math/big etc.) do not retain their arguments; everything else might
+	if !(fc.eng.inRepo(callee) && callee.Blocks != nil && fr.depth < 4 && fc.eng.inlinable(callee) && fc.eng.fnContract[callee] == nil) {
+		for _, a := range args {
+			fc.escapeVal(a)
+		}
 	}
 	// 2. contract
 	if c := fc.eng.fnContract[callee]; c != nil && !c.Inline {
